@@ -219,7 +219,7 @@ pub fn def() -> PropertyDef {
         families: vec![
             Family { name: "tree", max_len: 160, quick: 120_000, thorough: 3_000_000, run: run_tree },
             Family { name: "fd", max_len: 160, quick: 100_000, thorough: 2_000_000, run: run_fd },
-            Family { name: "scale", max_len: 96, quick: 6_000, thorough: 100_000, run: run_scale },
+            Family { name: "scale", max_len: 96, quick: 6_000, thorough: 60_000, run: run_scale },
             Family { name: "late-duplicates", max_len: 64, quick: 60_000, thorough: 1_000_000, run: run_late_duplicates },
         ],
         fixed: vec![Fixed { name: "property-text-example", run: fixed_example }, Fixed { name: "weaker-then-stronger-then-binding", run: fixed_replace }],
